@@ -123,6 +123,10 @@ def make_statements(rng, n, blank_ok=False):
         if blank_ok and r < 0.08:
             # an empty statement: a Grbl-like controller acknowledges it like any other line
             g.write(rng.choice(["", "  "]))
+        elif r < 0.12:
+            # free-form statements: runs of blanks and tabs inside a statement are part of it ("unmodified")
+            g.write(rng.choice(["M117 Layer  2/12", "M117 tool   change  now", "G1\tX1.5\tY2", "M118  E1   hello",
+                                "G1  X3 Y4", "M117 a\t\tb"]))
         elif r < 0.5:
             g.move(x=round(rng.uniform(-50, 50), 3), y=round(rng.uniform(-50, 50), 3), F=1200)
         elif r < 0.7:
@@ -148,6 +152,8 @@ def run_scenario(ctx, col, case, tag, rng, transport, regime, lat, n, errors_at,
     statements = make_statements(rng, n, blank_ok=(transport == "socket"))
     if any(not st.strip() for st in statements):
         col.count("scenarios_with_blank_statements")
+    col.count("statements_with_inner_blank_runs_or_tabs",
+              sum(1 for st in statements if b"  " in st.strip() or b"\t" in st.strip()))
     client = []          # (i, t_call, t_ret, outcome, exception repr, X reading after return)
     state = {"disconnect_t": None, "hung": False}
     info = {"tag": tag, "transport": transport, "regime": regime, "latency": lat, "n": n,
